@@ -5,6 +5,7 @@ package main
 import (
 	"encoding/hex"
 	"fmt"
+	"strings"
 	"time"
 
 	"github.com/folbricht/desync"
@@ -541,46 +542,77 @@ func c03Generate(e *c03Env, rnd *vh.Rand) error {
 			}
 		}
 	}
-	for _, payload := range []string{"other", "other-same-size", "requested", "raw", "garbage"} {
-		for _, label := range []string{"own", "requested", "third", "zero"} {
-			for _, have := range []string{"good", "missing"} {
-				for _, wi := range pickWraps() {
-					g.reset()
-					digest := g.setDigest()
-					d, d2 := g.chunkPair()
-					d3 := append([]byte{0x33}, d2...)
-					inner := g.leaf("local", g.rnd.Bool(), g.rnd.Bool())
-					pr := g.wrap("proto", inner)
-					st := wraps[wi](pr)
-					var body, data []byte
-					switch payload {
-					case "other":
-						data = d2
-						body = c03Enc(d2, false)
-					case "other-same-size":
-						data = append([]byte{}, d...)
-						data[g.rnd.Intn(len(data))] ^= 0x10
-						body = c03Enc(data, false)
-					case "requested":
-						data = d
-						body = c03Enc(d, false)
-					case "raw":
-						data = d2
-						body = d2
-					case "garbage":
-						data = g.rnd.Bytes(1 + g.rnd.Intn(40))
-						body = data
-					}
-					lbl := map[string]string{"own": c03ID(data), "requested": c03ID(d), "third": c03ID(d3), "zero": hex.EncodeToString(make([]byte, 32))}[label]
-					c := g.mk(fmt.Sprintf("subst/peer/%s/label-%s/%s/w%d", payload, label, have, wi), digest, st, d, d2, func(l c03Leaf) string {
-						if l.k == inner.K {
-							return have
+	// the casync-protocol client as a leaf in front of a scripted peer: every body form (zstd frame
+	// or plain bytes; of the requested chunk intact, of it damaged, of another chunk, same-size
+	// other chunk, garbage) x "compressed" flag set / unset x label (own id / requested / third /
+	// zero); the peer is reached through the in-process Protocol client or through the real
+	// RemoteSSH store talking to a child process; the leaf behind it holds the chunk or not
+	zeroID := hex.EncodeToString(make([]byte, 32))
+	for _, payload := range []string{"zstd-requested", "zstd-damaged", "zstd-other", "zstd-other-same-size",
+		"plain-requested", "plain-damaged", "plain-other", "plain-other-same-size", "garbage"} {
+		for _, flagUnset := range []bool{false, true} {
+			for _, peer := range []string{"proto", "sshp"} {
+				if peer == "sshp" && (e.fakeSSH == "" || e.self == "") {
+					continue
+				}
+				labels := []string{"own", "requested", "third", "zero"}
+				if !thorough {
+					labels = []string{labels[g.rnd.Intn(4)], labels[g.rnd.Intn(2)]}
+				}
+				for _, label := range labels {
+					for _, wi := range pickWraps() {
+						g.reset()
+						digest := g.setDigest()
+						d, d2 := g.chunkPair()
+						d3 := append([]byte{0x33}, d2...)
+						have := []string{"good", "missing"}[g.rnd.Intn(2)]
+						var pr, inner *c03Node
+						if peer == "proto" {
+							inner = g.leaf("local", g.rnd.Bool(), g.rnd.Bool())
+							pr = g.wrap("proto", inner)
+							pr.Keep = g.rnd.Bool()
+						} else {
+							g.nk++
+							pr = &c03Node{T: "sshp", K: g.nk - 1, Hop: g.nh, Keep: g.rnd.Bool()}
+							g.nh++
 						}
-						return "missing"
-					}, nil)
-					c.Faults = append(c.Faults, c03Fault{T: "N", K: pr.Hop, ID: c03ID(d), From: 0, To: 1 + g.rnd.Intn(3), F: "rs", Arg: vh.Hex(body), Lbl: lbl})
-					if err := g.run(c); err != nil {
-						return err
+						st := wraps[wi](pr)
+						same := append([]byte{}, d...)
+						same[g.rnd.Intn(len(same))] ^= 0x10
+						var data []byte
+						switch payload[strings.Index(payload, "-")+1:] {
+						case "requested":
+							data = d
+						case "damaged", "other-same-size":
+							data = same
+						case "other":
+							data = d2
+						default:
+							data = g.rnd.Bytes(1 + g.rnd.Intn(40))
+						}
+						body := data
+						if strings.HasPrefix(payload, "zstd-") {
+							body = c03Enc(data, false)
+							if payload == "zstd-damaged" { // the requested chunk's frame, damaged in transit
+								body = c03Enc(d, false)
+								body[g.rnd.Intn(len(body))] ^= 1 << uint(g.rnd.Intn(8))
+							}
+						}
+						lbl := map[string]string{"own": c03ID(data), "requested": c03ID(d), "third": c03ID(d3), "zero": zeroID}[label]
+						c := g.mk(fmt.Sprintf("peer/%s/%s/flag-unset=%v/label-%s/%s/w%d", peer, payload, flagUnset, label, have, wi), digest, st, d, d2, func(l c03Leaf) string {
+							if inner != nil && l.k == inner.K {
+								return have
+							}
+							return "missing"
+						}, nil)
+						to := c03Inf
+						if peer == "proto" && g.rnd.Bool() {
+							to = 1 + g.rnd.Intn(3)
+						}
+						c.Faults = append(c.Faults, c03Fault{T: "N", K: pr.Hop, ID: c03ID(d), From: 0, To: to, F: "rs", Arg: vh.Hex(body), Lbl: lbl, FlagUnset: flagUnset})
+						if err := g.run(c); err != nil {
+							return err
+						}
 					}
 				}
 			}
